@@ -768,10 +768,16 @@ class Parser:
             elif a.action is REDUCE:
                 r_len = len(a.prod.rhs)
                 results = [x.results for x in self.parse_stack[-r_len:]] if r_len else []
+                # The context is the stack node of the last reduced symbol.
+                # It lends itself to the filter as the context of the
+                # reduction to be decided but keeps its own production.
+                production = context.production
                 context.production = a.prod
-                if self._call_dynamic_filter(
+                accepted = self._call_dynamic_filter(
                     context, context.state, a.state, REDUCE, a.prod, results
-                ):
+                )
+                context.production = production
+                if accepted:
                     dyn_actions.append(a)
             else:
                 dyn_actions.append(a)
